@@ -47,8 +47,24 @@ def sym_lattice(ctx, name='lat', lat_id=0):
     params = tuple(z3.Real(f'{name}_param{i}') for i in range(6))
     lat = SObj('Lattice', matrix=mat, _id=lat_id, _m=m, volume=vol, lengths=tuple(lengths), abc=tuple(lengths),
                parameters=params, _orient='arbitrary', _gid=lat_id)
+    # metric tensor G = M M^T
+    lat.set('metric_tensor', STensor((3, 3), lambda i, j: _metric(m, i, j), 'real'))
     mindist_axioms(ctx, lat_id)
     return lat
+
+
+def _metric(m, i, j):
+    def g(a, b):
+        return m[a][0] * m[b][0] + m[a][1] * m[b][1] + m[a][2] * m[b][2]
+    i, j = pyval(i), pyval(j)
+    if not is_sym(i) and not is_sym(j):
+        return g(int(i), int(j))
+    out = None
+    for a in range(3):
+        for b in range(3):
+            c = V.z_and(V.cmpop('==', i, a), V.cmpop('==', j, b))
+            out = g(a, b) if out is None else V.z_ite(c, g(a, b), out)
+    return out
 
 
 def _tab(m, i, j):
